@@ -113,6 +113,9 @@ class Simulator:
                 leaf = self.propagatables[i]
                 pos = self.findFirstDependentPosition(leaf)
                 
+                if (pos == i):
+                    raise Exception('Combinational loop: {} drives one of its own inputs'.format(leaf.getFullPath()))
+                
                 if (pos >= 0 and pos < i):
                     # exchange position, put dependent last
                     first = self.propagatables[pos]
